@@ -179,11 +179,6 @@ Proof.
   eexists. split; [vm_compute; reflexivity|]. split; [cbn; tauto|vm_compute; reflexivity].
 Qed.
 
-(** MyersDiff leaves its index window: one old element, eight new ones, nothing in common *)
-Theorem myers_panic_refuted :
-  myers Z.eqb [1000] [2000;2001;2002;2003;2004;2005;2006;2007] = Panic "patch.diffInternal:index".
-Proof. vm_compute. reflexivity. Qed.
-
 (* ------------------------------------------------------------------------------------------ *)
 (** * Bounded exhaustive check of the Myers model (the bound is part of the statement) *)
 
